@@ -417,3 +417,45 @@ func C04FilterSplit() {
 	zz.Assert(got == string(s[:cut]), "the removed suffix is exactly the last top-level [...] group")
 	zz.Cover("split")
 }
+
+// C16XmlJsonStream: a failing source under the XML stream reader (real encoding/xml):
+// records before the fault (except possibly the last) equal the fault-free run, then a
+// non-EOF error that stays (the reader latches it).
+func C16XmlStream() {
+	K := zz.Param("K", 2)
+	doc := zzDoc(K).write(nil)
+	spa, err := NewXMLStreamReader(&zzChunkReader{data: doc, failAt: -1}, "/R/T")
+	zz.Assume(err == nil)
+	var want []string
+	for i := 0; i < K+2; i++ {
+		n, err := spa.Read()
+		if err != nil {
+			break
+		}
+		want = append(want, zzSer(n))
+		spa.Release(n)
+	}
+	failAt := zz.NondetChoice("failAt", len(doc)+1)
+	spb, err := NewXMLStreamReader(&zzChunkReader{data: append([]byte{}, doc...), failAt: failAt, ioErr: zzIOErr}, "/R/T")
+	zz.Assume(err == nil)
+	got := 0
+	pending, havePending := "", false
+	for i := 0; i < K+3; i++ {
+		n, err := spb.Read()
+		if err == nil {
+			if havePending {
+				zz.Assert(got-1 < len(want) && pending == want[got-1], "results before the fault (except possibly the last) equal the fault-free run")
+			}
+			pending, havePending = zzSer(n), true
+			got++
+			spb.Release(n)
+			continue
+		}
+		zz.Assert(err != io.EOF, "a failing source never ends in a clean EOF")
+		_, err2 := spb.Read()
+		zz.Assert(err2 == err, "the stream reader keeps returning the same error")
+		zz.Cover("fatal")
+		return
+	}
+	zz.Fail("no error within the read bound")
+}
